@@ -225,14 +225,15 @@ def pools(tier):
                ("t2:table,2pos,n=1,k=3", "map", H(1, 1), ["xy"], (0,), 3, ("plain",), 4)]
     else:
         # (bounds set from measured cost: the first version ran > 1.5 h, a first trim still > 1 h under load)
-        cfg = [("O1:Ovld,1pos,n<=3,k=3,prio", "ovld", H(1, 3), ["x"], (0, 1), 3, ("plain", "cn"), 4),
+        cfg = [("O1:Ovld,1pos,n<=3,k=3,prio", "ovld", H(1, 3), ["x"], (0, 1), 3, ("plain", "cn"), 3),
+               ("O1a:Ovld,1pos,n<=2,k=3,prio", "ovld", H(1, 2), ["x"], (0, 1), 3, ("plain", "cn"), 5),
                ("O1k4:Ovld,1pos,n<=2,k=4", "ovld", H(1, 2), ["x"], (0, 1), 4, ("plain",), 4),
-               ("O2:Ovld,2pos,n<=2,k=3", "ovld", H(1, 2), ["xy"], (0,), 3, ("plain", "cn"), 2),
+               ("O2:Ovld,2pos,n<=2,k=3", "ovld", H(1, 2), ["xy"], (0,), 3, ("plain",), 2),
                ("O2a:Ovld,2pos,n=1,k=3", "ovld", H(1, 1), ["xy"], (0, 1), 3, ("plain", "cn"), 4),
                ("O3:Ovld,mixed shapes,n<=2,k=3", "ovld", H(1, 2), ["x", "xy?", "x*k?"], (0,), 3, ("plain", "cn"), 3),
                ("O5:Ovld,1pos,n<=2,k=3 plain methods + a recursive walker over lists", "ovld", H(1, 2), ["x"], (0, 1), 3, ("rec+",), 4),
                ("T1:table,1pos,n<=3,k<=4,prio", "map", H(1, 3), ["x"], (0, 1), 4, ("plain",), 4),
-               ("T2:table,2pos,n<=2,k=3", "map", H(1, 2), ["xy"], (0, 1), 3, ("plain",), 3),
+               ("T2:table,2pos,n<=2,k=3", "map", H(1, 2), ["xy"], (0,), 3, ("plain",), 3),
                ("T2a:table,2pos,n=1,k=3", "map", H(1, 1), ["xy"], (0, 1), 3, ("plain",), 5)]
     for name, kind, hiers, shapes, prios, k, bodies, depth in cfg:
         for h in hiers:
